@@ -332,20 +332,49 @@ func (e *Engine) selectStmt(st *State, th *Thread, fr *Frame, x *ssa.Select) Val
 		e.offer(st, th)
 	}
 	var waits []waitCh
+	var timers, others []int // thread mode: ready timer arms / arms on ordinary channels
 	for i, s := range x.States {
 		c := e.get(st, fr, s.Chan).(ChanV)
 		if c.Obj == 0 {
 			continue
 		}
 		o := st.obj(c.Obj)
+		if e.threadMode && o.timer && s.Dir != types.SendOnly && len(o.q) == 0 && !o.closed {
+			if e.tm(st).ticks > 0 {
+				timers = append(timers, i)
+			}
+			continue
+		}
+		others = append(others, i)
 		waits = append(waits, waitCh{c.Obj, s.Dir == types.SendOnly})
 		if s.Dir == types.SendOnly {
 			if len(o.q) < o.qcap && !o.closed {
 				ready = append(ready, i)
 			}
 		} else {
-			if len(o.q) > 0 || o.closed || (o.timer && (!e.threadMode || e.tm(st).ticks > 0)) {
+			if len(o.q) > 0 || o.closed || o.timer {
 				ready = append(ready, i)
+			}
+		}
+	}
+	if e.threadMode && len(timers) > 0 {
+		switch {
+		case th.timerDue: // nothing else can happen any more: the timer fires
+			ready = timers
+			th.timerDue, th.waitTimer = false, false
+		case len(ready) > 0: // an ordinary arm is ready: it or a timer
+			ready = append(ready, timers...)
+		case len(others) == 0 || !x.Blocking:
+			ready = timers
+		default:
+			// only timers are ready: the timer fires now, or the thread waits for the other arms (the timer stays
+			// pending and fires if nothing else can run any more)
+			if e.choose(st, 2, "timer") == 0 {
+				ready = timers
+			} else {
+				th.waitMode, th.waitChans, th.waitTimer = 4, waits, true
+				e.threadBlock(st, th, "select")
+				return nil
 			}
 		}
 	}
